@@ -42,6 +42,7 @@ func init() {
 			doc.jsonText(&b)
 			text := b.String()
 			short := sx.A(text)
+			noteCase("C02", text)
 			p, err := pipeline.Parse(strings.NewReader(text))
 			if err != nil && !warning.Is(err) {
 				continue
